@@ -37,7 +37,11 @@ def explore(ck):
         base_blocks = gen.random_chain(r, coin, 3, max_tx=2, script_kinds=['p2pkh', 'p2sh'], segwit_p=0)
         for field in ['scriptPubKey', 'scriptSig', 'witness']:
             hs = r.sample(pick, 6)
+            if field in ('scriptPubKey', 'scriptSig'):
+                hs.append(gen.rb(r, [65535, 65534, 65536, 253][i % 4]))       # a length on a CompactSize width boundary (the txid commits to the length bytes as stored)
             if field == 'scriptPubKey':
+                # witness-program look-alikes the bitcoin evaluator may log a warning about (v0 with an illegal length), and other shapes that only produce log output
+                hs += [b'\x00\x0a' + b'\x42' * 10, b'\x00\x02\x01\x02', b'\x00\x28' + gen.rb(r, 40), b'\x60\x02\xab\xcd']
                 # long OP_RETURN texts: multi-byte characters straddling every byte offset 70..100 and beyond, invalid bytes at those offsets (lossy path)
                 for off in r.sample(range(70, 101), 4) + [160, 255, 256]:
                     hs.append(b'\x6a' + push(b'A' * off + 'é€😀'.encode() * 10 + b'B' * r.randrange(0, 60)))
